@@ -488,6 +488,27 @@ class KindAnalysis:
             sig = METHOD_SIGS[c.func.attr]
             pnames = list(sig.params) or ["key"]
         if sig is None:
+            # an unseeded private helper of the same class / module: analyse its body with the kinds of the arguments
+            helper = None
+            if isinstance(c.func, ast.Attribute) and norm(c.func.value) == "self" and self.fn.cls is not None:
+                helper = dict.get(self.fn.cls.methods, c.func.attr)
+            elif q in self.prog.functions and self.prog.functions[q].module is self.fn.module and q.rsplit(".", 1)[-1].startswith("_"):
+                helper = self.prog.functions[q]
+            depth = getattr(self, "_depth", 0)
+            if helper is not None and helper is not self.fn and depth < 2 and not helper.is_property:
+                hp = [p_ for p_ in helper.param_names() if p_ not in ("self", "cls")]
+                bound = {pn: self.k(a) for pn, a in list(zip(hp, args)) + [(kw.arg, kw.value) for kw in c.keywords if kw.arg]}
+                bound = {k_: v for k_, v in bound.items() if v is not None}
+                if bound or self.storage_self:
+                    sub = KindAnalysis.__new__(KindAnalysis)
+                    sub._depth = depth + 1
+                    KindAnalysis.__init__(sub, self.prog, self.typer, helper, bound, self.consts, storage_self=self.storage_self and helper.cls is not None, variant=self.variant)
+                    self.findings += sub.findings
+                    self.unresolved += sub.unresolved
+                    kinds_ = {r_ for _n, r_ in sub.returns if r_ is not None}
+                    if len(kinds_) == 1 and all(r_ is not None for _n, r_ in sub.returns):
+                        return next(iter(kinds_))
+                return None
             # partial(f, kw=...) over a seeded function
             if name in ("functools.partial", "partial") and args:
                 tq = self.prog.resolve_name(self.fn.module, dotted(args[0]), self.fn)
